@@ -110,9 +110,11 @@ func (m matcherSpec) holds(e absEntry) bool {
 	return false
 }
 
-var qGroups = []string{"default", "g1", "grp2", "g"}
-var qNames = []string{"a", "ab", "abc", "b", "ba", "cab", "job-é", "x y"}
-var qPats = []string{"", "a", "ab", "b", "abc", "c", "g", "g1", "default", "rp", "é", " ", "zz", "abcd"}
+// the pools contain keys whose "group::name" renderings collide (etl + daily::load vs etl::daily + load),
+// keys that differ only by case, and patterns that differ from stored names only by case
+var qGroups = []string{"default", "g1", "grp2", "g", "etl", "etl::daily", "G1", "Default"}
+var qNames = []string{"a", "ab", "abc", "b", "ba", "cab", "job-é", "x y", "daily::load", "load", "AB", "Abc", "::", "a::"}
+var qPats = []string{"", "a", "ab", "b", "abc", "c", "g", "g1", "default", "rp", "é", " ", "zz", "abcd", "A", "AB", "ABC", "G1", "DEFAULT", "ETL", "etl", "::", "load", "LOAD", "É"}
 var qPrios = []int64{0, 1, 2, 3, 5, 5, 7, 7, 100, -1, -5, math.MaxInt64, math.MaxInt64, math.MaxInt64 - 1, math.MinInt64}
 
 func genMatchers(r *rand.Rand) []matcherSpec {
@@ -332,8 +334,17 @@ func queueRun(args []string) int {
 
 	genParams := func(op string) []string {
 		g, n := qGroups[r.Intn(len(qGroups))], qNames[r.Intn(len(qNames))]
-		if r.Intn(3) != 0 { // concentrate on few keys so that duplicates and hits happen
+		switch r.Intn(6) { // concentrate on few keys so that duplicates and hits happen
+		case 0, 1, 2:
 			g, n = qGroups[r.Intn(2)], qNames[r.Intn(3)]
+		case 3: // colliding renderings
+			if r.Intn(2) == 0 {
+				g, n = "etl", "daily::load"
+			} else {
+				g, n = "etl::daily", "load"
+			}
+		case 4: // case variants
+			g, n = []string{"g1", "G1"}[r.Intn(2)], []string{"ab", "AB", "abc", "Abc"}[r.Intn(4)]
 		}
 		switch op {
 		case "push":
